@@ -236,6 +236,71 @@ def opt_2x2(u0: int, u1: int, v0: int, v1: int, twice: bool) -> bool:
     return _opt(PORTS3, [[a0, a1], [b0, b1]], 2 if twice else 1)
 
 
+def _alt_concrete(ports, instrs, alt_pos, alt_form, passes):
+    """instrs: single-micro-op forms; instruction alt_pos additionally has a second alternative."""
+    from harness._ports import build_kernel
+    sem, model, kernel = build_kernel(ports, [[f] for f in instrs])
+    a0 = uop(ports, *instrs[alt_pos])
+    a1 = uop(ports, *alt_form)
+    kernel[alt_pos].port_uops = {0: [a0], 1: [a1]}      # as _handle_instruction_found hands it over
+    kernel[alt_pos].port_pressure = model.average_port_pressure({0: [a0], 1: [a1]})
+    for _ in range(passes):
+        sem.assign_optimal_throughput(kernel)
+    sums = ArchSemantics.get_throughput_sum(kernel)
+    ok = totals_ok(kernel, sums)
+    n = len(ports)
+    for i, f in enumerate(kernel):
+        options = [[instrs[i]]] + ([[alt_form]] if i == alt_pos else [])
+        chosen = None
+        for o in options:
+            if f.port_uops == [uop(ports, *o[0])]:
+                chosen = o
+        if chosen is None:
+            ok = False      # the reported micro-op list is not one of the instruction's alternatives
+        elif not hall_ok(n, chosen, f.port_pressure, 0.01 * passes + 1e-6):
+            ok = False
+    return ok, True, {"instrs": [list(map(list, [[f[0]], f[1]])) for f in instrs], "alt_pos": alt_pos, "alt": [alt_form[0], list(alt_form[1])],
+                      "passes": passes, "pressure": [list(f.port_pressure) for f in kernel]}
+
+
+def _opt_alt(n, u0, u1, u2, alt, pos, twice):
+    fs = [FORMS14[pick(u0, n)], FORMS14[pick(u1, n)], FORMS14[pick(u2, n)]]
+    af = FORMS14[pick(alt, n)]
+    p = pick(pos, 3)
+    if af == fs[p]:
+        return True
+    if skip({"alternatives": True}):
+        return True
+    ok, nt, sample = native(_alt_concrete, list(PORTS3), [(c, tuple(ix)) for c, ix in fs], p, (af[0], tuple(af[1])), 2 if twice else 1)
+    return verdict(ok, nontrivial=nt, sample=sample)
+
+
+def opt_alt(u0: int, u1: int, u2: int, alt: int, pos: int, twice: bool) -> bool:
+    """
+    pre: 0 <= u0 < 7 and 0 <= u1 < 7 and 0 <= u2 < 7 and 0 <= alt < 7 and 0 <= pos < 3
+    post: _
+    """
+    # three single-micro-op instructions (one-cycle forms); the one at position pos has a second
+    # alternative port assignment (dict port_uops as in a64fx smlal)
+    lo, hi = shard(49)
+    if not (lo <= u0 * 7 + u1 < hi):
+        return True
+    return _opt_alt(7, u0, u1, u2, alt, pos, twice)
+
+
+def opt_alt_full(u0: int, u1: int, u2: int, alt: int, pos: int, twice: bool) -> bool:
+    """
+    pre: 0 <= u0 < 14 and 0 <= u1 < 14 and 0 <= u2 < 14 and 0 <= alt < 14 and 0 <= pos < 3
+    post: _
+    """
+    lo, hi = shard(196)
+    if not (lo <= u0 * 14 + u1 < hi):
+        return True
+    if u0 < 7 and u1 < 7 and u2 < 7 and alt < 7:
+        return True    # covered by opt_alt
+    return _opt_alt(14, u0, u1, u2, alt, pos, twice)
+
+
 def opt_half(u0: int, v0: int, h0: bool, h1: bool, twice: bool) -> bool:
     """
     pre: 0 <= u0 < 7 and 0 <= v0 < 7
@@ -256,6 +321,8 @@ CELLS = {
     "opt_2x1": {"fn": opt_2x1, "bound": "3 ports; instruction A = 2 micro-ops, B = 1 micro-op, each over 7 port sets x {1,2} cycles; 1 or 2 balancing passes", "budget": {"quick": 170, "thorough": 600}, "shards": 14},
     "opt_1x1x1": {"fn": opt_1x1x1, "bound": "3 single-micro-op instructions over 14 forms; 1 or 2 passes; with/without multi-character port", "budget": {"quick": 170, "thorough": 600}, "shards": 14},
     "opt_2x2": {"fn": opt_2x2, "tiers": ("thorough",), "bound": "two instructions with 2 micro-ops each over 14 forms (38416 kernels) x 1/2 passes", "budget": {"thorough": 1500}, "shards": 49},
+    "opt_alt": {"fn": opt_alt, "bound": "3 single-micro-op instructions over the 7 one-cycle forms, the instruction at each position with a second alternative port assignment (dict port_uops); 1 or 2 passes", "budget": {"quick": 170, "thorough": 900}, "shards": 16},
+    "opt_alt_full": {"fn": opt_alt_full, "tiers": ("thorough",), "bound": "same over all 14 forms (two-cycle forms included)", "budget": {"thorough": 1800}, "shards": 48},
     "opt_half": {"fn": opt_half, "bound": "two single-micro-op instructions with 0.5 or 1 cycle", "budget": {"quick": 120, "thorough": 300}},
 }
 
@@ -263,7 +330,7 @@ META = {
     "functions": ["MachineModel.average_port_pressure", "ArchSemantics.assign_tp_lt", "ArchSemantics._handle_instruction_found", "ArchSemantics.assign_optimal_throughput",
                   "ArchSemantics.get_throughput_sum"],
     "bounds": "synthetic 3-port models; uniform: cycles symbolic 0..64; optimised: kernels of 2-3 instructions, <=2 micro-ops each, cycles in {0.5,1,2}, every port-set shape, 1 or 2 passes",
-    "outside": "shipped models, kernels longer than 3, alternative port assignments (dict port_uops), hidden-load mode, load/store multipliers (C08)",
+    "outside": "shipped models, kernels longer than 3, hidden-load mode, load/store multipliers (C08)",
     "assumptions": ["uniform cells use CrossHair's real-based floats: the claim is the algebra of the 1/N split, not IEEE rounding",
                     "optimised cells: the solver decides the structure; each path is one native IEEE run of the real balancer; tolerance 0.01 cy per micro-op and pass (+1e-6)"],
 }
